@@ -160,6 +160,12 @@ class Hist:
                         if d._snapshot is not None:
                             d._snapshot._sid = op["c"]
                         self.decorate(op["f"], d)
+                    elif o == "call":
+                        # a stand-alone use of the (decorated) function; whatever it does, it must not freeze its contracts
+                        try:
+                            self.func(op["f"])(None)
+                        except BaseException:  # noqa: B902
+                            pass
                     elif o == "wrap":
                         self.fn[op["f"]] = _foreign(self.func(op["f"]))
                     elif o == "inv":
@@ -190,7 +196,7 @@ class Hist:
                                     ns[key] = property(g, s_, d_)
                                 else:
                                     ns[key] = 12345
-                            ns["__module__"] = "verif_hist"
+                            ns["__module__"] = self.case.get("module", "verif_hist")
                             bases = tuple(self.cls[b] for b in op["bases"])
                             any_dbc = op["dbc"] or any(isinstance(b, icontract.DBCMeta) for b in bases)
                             if any_dbc:
